@@ -301,6 +301,42 @@ func (r *R) Exec(ctx sdk.Context, line string) (sdk.Context, string) {
 		id := tmbytes.HexBytes(unhex(a["ctx"]))
 		class, _ := hx.Try(ctx, func(c sdk.Context) error { r.env.Random.HandlerStateChanged(c, id, "insufficient balances"); return nil })
 		return ctx, class + " " + r.State(ctx)
+	case "svc_break":
+		// the environment changes under a still pending oracle request: its service context is
+		// removed, or is no longer paused, so that StartRequestContext will fail when it falls due
+		id := tmbytes.HexBytes(unhex(a["ctx"]))
+		class, _ := hx.Try(ctx, func(c sdk.Context) error {
+			switch a["how"] {
+			case "delete":
+				r.env.Service.DeleteRequestContext(c, id)
+			case "running":
+				if rc, found := r.env.Service.GetRequestContext(c, id); found {
+					rc.State = servicetypes.RUNNING
+					r.env.Service.SetRequestContext(c, id, rc)
+				}
+			default:
+				hx.Fail("bad svc_break %q", line)
+			}
+			return nil
+		})
+		return ctx, class + " " + r.State(ctx)
+	case "genesis_pending":
+		// a pending request that entered through the module's genesis (random.InitGenesis): this is
+		// how a chain comes to hold an oracle request whose service context it does not know
+		cap := sdk.Coins(nil)
+		if c := hx.Undash(a["feecap"]); c != "" {
+			cc, err := sdk.ParseCoinsNormalized(c)
+			if err != nil {
+				hx.Fail("bad coins %q", c)
+			}
+			cap = cc
+		}
+		req := randomtypes.Request{Height: i64(a["reqh"]), Consumer: r.consumer(a["consumer"]),
+			TxHash: hx.Undash(a["txhash"]), Oracle: a["oracle"] == "1", ServiceFeeCap: cap, ServiceContextID: hx.Undash(a["ctx"])}
+		gs := randomtypes.GenesisState{PendingRandomRequests: map[string]randomtypes.Requests{
+			a["due"]: {Requests: []randomtypes.Request{req}}}}
+		class, _ := hx.Try(ctx, func(c sdk.Context) error { randommod.InitGenesis(c, r.env.Random, gs); return nil })
+		return ctx, class + " " + r.State(ctx)
 	case "svc_end_block":
 		// the real service module's EndBlocker at the current height: initiates the requests of
 		// started contexts, expires batches (response callback with an error), pauses contexts
@@ -441,12 +477,42 @@ func (r *R) genConsumer(g *hx.Rng) string {
 }
 
 func (r *R) Gen(ctx sdk.Context, g *hx.Rng) string {
-	kind := g.Pick(30, 40, 8, 7, 2, 8, 8)
+	kind := g.Pick(30, 40, 8, 7, 2, 8, 8, 3, 2)
 	if kind == 0 && !r.ended {
 		// a block ends with the service module's EndBlocker before the next one begins
 		return r.genSvcEndBlock(ctx)
 	}
 	switch kind {
+	case 7:
+		// break the service context of an oracle request that is still waiting in the queue
+		var cs []string
+		for _, e := range r.queue(ctx) {
+			if e.req.Oracle && e.req.ServiceContextID != "" {
+				cs = append(cs, e.req.ServiceContextID)
+			}
+		}
+		if len(cs) == 0 {
+			return ""
+		}
+		return fmt.Sprintf("random svc_break ctx=%s how=%s", cs[g.Intn(len(cs))], []string{"delete", "running"}[g.Intn(2)])
+	case 8:
+		// a pending request seeded through genesis; oracle ones carry a context id the service
+		// module has never seen
+		h := ctx.BlockHeight()
+		reqh := h - g.Range(0, 3)
+		if reqh < 0 {
+			reqh = 0
+		}
+		due := h + g.Range(0, 4)
+		if due < h { // int64 edge
+			due = h
+		}
+		o, c, cap := "1", strings.ToUpper(hex.EncodeToString(g.Bytes(40))), "50stake"
+		if g.Chance(1, 4) {
+			o, c, cap = "0", "-", "-"
+		}
+		return fmt.Sprintf("random genesis_pending consumer=%s reqh=%d due=%d txhash=%s oracle=%s feecap=%s ctx=%s",
+			hx.AccName(g.Intn(nAcc)), reqh, due, hex.EncodeToString(g.Bytes(32)), o, cap, c)
 	case 6:
 		// a provider response through the real service module, to a started oracle request
 		pend := sortedKeys(r.oracleCtxs(ctx))
